@@ -82,6 +82,29 @@ theorem leaf_strictness :
     exactMatch (.bool true) (.flt 8) = false ∧ exactMatch (.int 1) (.flt 8) = true ∧
     exactMatch (.int 1) (.str "1") = false ∧ exactMatch .null (.bool false) = false := by decide
 
+/-- numeric leaves are compared EXACTLY — no tolerance: two numbers match iff they are the same rational
+    (floats are eighths in the model; an int `n` is `8n` eighths) -/
+theorem number_leaves_exact (a b : Int) :
+    (exactMatch (.flt a) (.flt b) = true ↔ a = b) ∧ (exactMatch (.int a) (.int b) = true ↔ a = b) ∧
+    (exactMatch (.int a) (.flt b) = true ↔ a * 8 = b) ∧ (exactMatch (.flt a) (.int b) = true ↔ a = b * 8) := by
+  refine ⟨?_, ?_, ?_, ?_⟩ <;> rw [exactMatch_scalar _ _ rfl] <;> simp [scalarEq]
+
+/-- … in particular neighbours that are relatively close (1 part in 10¹⁰) differ:
+    10737418240.0 vs 10737418241.0, and the int 2⁴⁰ vs the float 2⁴⁰ + 1/8 -/
+theorem close_numbers_differ :
+    exactMatch (.flt 85899345920) (.flt 85899345928) = false ∧
+    exactMatch (.int 1099511627776) (.flt 8796093022209) = false ∧
+    exactMatch (.int 1099511627776) (.flt 8796093022208) = true := by decide
+
+/-- the directives are part of the expectation on EVERY run: the same expectation without them gives
+    another verdict, so a judge that consumes them while judging is wrong from the second run on
+    (the runs themselves are values in this model; that a run leaves the prepared assertions
+    untouched is checked on the implementation by re-running prepared FunctionTests) -/
+theorem directives_needed_on_every_run :
+    let t := JVal.obj [(compareAsSet, .arr [.str "tags"]), ("tags", .arr [.str "b", .str "a"])]
+    let a := JVal.obj [("tags", .arr [.str "a", .str "b"])]
+    exactMatch t a = true ∧ exactMatch (strip t) a = false := by decide
+
 /-- F6 (corpus/C19/set-bool-number.json).  Full statement for the UNREPAIRED set comparison:
       `∀ ts as, setMatchLegacy ts as = true ↔ SetEq ts as`
     It is false: Python set equality conflates `True`/`1`.  The repaired comparison decides `SetEq`. -/
